@@ -5,6 +5,7 @@ package main
 
 import (
 	"fmt"
+	"go/constant"
 	"go/token"
 	"os"
 	"sort"
@@ -620,10 +621,195 @@ func (w *Walker) exitFacts(fr *Frame, b *ssa.BasicBlock, depth int) []FactT {
 	if call := callOfErr(ret.Results[len(ret.Results)-1]); call != nil {
 		out = append(out, w.impliedFacts(fr, CallFact{Call: call, Outcome: "err==nil"}, depth)...)
 	}
+	// `err := f(); if err == nil { err = g() }; return err`: the returned error is a
+	// phi; it is nil only along edges whose value can be nil, and there the facts of
+	// that edge hold (including "the call that produced the value succeeded")
+	if phi, ok := ret.Results[len(ret.Results)-1].(*ssa.Phi); ok {
+		out = append(out, w.nilErrPhiFacts(fr, phi, depth, 0)...)
+	}
+	return out
+}
+
+func (w *Walker) nilErrPhiFacts(fr *Frame, phi *ssa.Phi, depth, rec int) []FactT {
+	if rec > 4 {
+		return nil
+	}
+	var common map[string]FactT
+	feasible := 0
+	for i, e := range phi.Edges {
+		if i >= len(phi.Block().Preds) {
+			continue
+		}
+		pred := phi.Block().Preds[i]
+		if errNonNilAt(e, pred) {
+			continue // this edge carries a non-nil error
+		}
+		// the branch taken from pred into the phi block may itself say e != nil
+		if ifi, ok := pred.Instrs[len(pred.Instrs)-1].(*ssa.If); ok && len(pred.Succs) == 2 {
+			holds := pred.Succs[0] == phi.Block()
+			infeasible := false
+			for _, f := range expandCond(ifi.Cond, holds, ifi) {
+				if bo, ok := f.Cond.(*ssa.BinOp); ok && (bo.X == e || bo.Y == e) && (isNilConst(bo.X) || isNilConst(bo.Y)) {
+					if (bo.Op == token.NEQ) == f.Holds {
+						infeasible = true
+					}
+				}
+			}
+			if infeasible {
+				continue
+			}
+		}
+		feasible++
+		m := map[string]FactT{}
+		for _, ft := range w.blockFacts(fr, pred, depth+1) {
+			m[ft.String()] = ft
+		}
+		if ifi, ok := pred.Instrs[len(pred.Instrs)-1].(*ssa.If); ok && len(pred.Succs) == 2 {
+			holds := pred.Succs[0] == phi.Block()
+			for _, f := range expandCond(ifi.Cond, holds, ifi) {
+				ft := FactT{Text: w.ts.Of(f.Cond, fr).LooseString(), Holds: f.Holds}
+				m[ft.String()] = ft
+				// err == nil on this edge for another call's error: that call succeeded
+				if bo, ok := f.Cond.(*ssa.BinOp); ok && (bo.Op == token.EQL) == f.Holds {
+					for _, side := range []ssa.Value{bo.X, bo.Y} {
+						if call := callOfErr(side); call != nil && (isNilConst(bo.X) || isNilConst(bo.Y)) {
+							for _, g := range w.impliedFacts(fr, CallFact{Call: call, Outcome: "err==nil"}, depth+1) {
+								m[g.String()] = g
+							}
+						}
+					}
+				}
+			}
+		}
+		switch v := e.(type) {
+		case *ssa.Phi:
+			for _, ft := range w.nilErrPhiFacts(fr, v, depth, rec+1) {
+				m[ft.String()] = ft
+			}
+		default:
+			if call := callOfErr(e); call != nil {
+				for _, ft := range w.impliedFacts(fr, CallFact{Call: call, Outcome: "err==nil"}, depth+1) {
+					m[ft.String()] = ft
+				}
+			}
+		}
+		if common == nil {
+			common = m
+		} else {
+			for k := range common {
+				if _, ok := m[k]; !ok {
+					delete(common, k)
+				}
+			}
+		}
+	}
+	if feasible == 0 {
+		return nil
+	}
+	var out []FactT
+	for _, k := range sortedKeys(common) {
+		out = append(out, common[k])
+	}
 	return out
 }
 
 func (w *Walker) blockFacts(fr *Frame, b *ssa.BasicBlock, depth int) []FactT {
+	return withEquivalents(w.blockFacts0(fr, b, depth))
+}
+
+// splitTop splits s at top-level occurrences of sep (outside parentheses,
+// brackets and braces).
+func splitTop(s, sep string) []string {
+	var out []string
+	depth, last := 0, 0
+	for i := 0; i < len(s); i++ {
+		switch s[i] {
+		case '(', '[', '{':
+			depth++
+		case ')', ']', '}':
+			depth--
+		}
+		if depth == 0 && strings.HasPrefix(s[i:], sep) {
+			out = append(out, s[last:i])
+			last = i + len(sep)
+			i += len(sep) - 1
+		}
+	}
+	return append(out, s[last:])
+}
+
+var cmpFlip = map[string]string{"<": ">", "<=": ">=", ">": "<", ">=": "<=", "==": "==", "!=": "!="}
+var cmpNeg = map[string]string{"<": ">=", "<=": ">", ">": "<=", ">=": "<", "==": "!=", "!=": "=="}
+var methNeg = map[string]string{"LT": "GTE", "GTE": "LT", "GT": "LTE", "LTE": "GT", "IsLT": "IsGTE", "IsGTE": "IsLT"}
+var methFlip = map[string]string{"LT": "GT", "GT": "LT", "GTE": "LTE", "LTE": "GTE"}
+
+// withEquivalents adds, for every comparison fact, its equivalent spellings:
+// ¬(a >= b) ≡ (a < b) ≡ (b > a) ≡ ¬(b <= a), and likewise for the
+// LT/LTE/GT/GTE methods of the SDK number types. Rules may then name a
+// comparison in any one form; `if x >= y { ok }` and `if x < y { fail }` read alike.
+func withEquivalents(fs []FactT) []FactT {
+	out := fs
+	seen := map[string]bool{}
+	for _, f := range fs {
+		seen[f.String()] = true
+	}
+	add := func(t string, holds bool, where token.Pos) {
+		f := FactT{Text: t, Holds: holds, Where: where}
+		if !seen[f.String()] {
+			seen[f.String()] = true
+			out = append(out, f)
+		}
+	}
+	for _, f := range fs {
+		t, holds := f.Text, f.Holds
+		if strings.HasSuffix(t, " : true") {
+			t = strings.TrimSuffix(t, " : true")
+		} else if strings.HasSuffix(t, " : false") {
+			t, holds = strings.TrimSuffix(t, " : false"), !holds
+		} else if strings.Contains(t, " : ") {
+			continue
+		}
+		// (a op b)
+		if strings.HasPrefix(t, "(") && strings.HasSuffix(t, ")") {
+			inner := t[1 : len(t)-1]
+			for _, op := range []string{"<=", ">=", "==", "!=", "<", ">"} {
+				parts := splitTop(inner, " "+op+" ")
+				if len(parts) != 2 {
+					continue
+				}
+				a, b := parts[0], parts[1]
+				add("("+a+" "+cmpNeg[op]+" "+b+")", !holds, f.Where)
+				add("("+b+" "+cmpFlip[op]+" "+a+")", holds, f.Where)
+				add("("+b+" "+cmpNeg[cmpFlip[op]]+" "+a+")", !holds, f.Where)
+				break
+			}
+			continue
+		}
+		// T.M(a, b)
+		if i := strings.Index(t, "("); i > 0 && strings.HasSuffix(t, ")") {
+			head := t[:i]
+			j := strings.LastIndex(head, ".")
+			if j < 0 {
+				continue
+			}
+			m := head[j+1:]
+			args := splitTop(t[i+1:len(t)-1], ", ")
+			if len(args) != 2 {
+				continue
+			}
+			if n, ok := methNeg[m]; ok {
+				add(head[:j+1]+n+"("+args[0]+", "+args[1]+")", !holds, f.Where)
+			}
+			if fl, ok := methFlip[m]; ok {
+				add(head[:j+1]+fl+"("+args[1]+", "+args[0]+")", holds, f.Where)
+				add(head[:j+1]+methNeg[fl]+"("+args[1]+", "+args[0]+")", !holds, f.Where)
+			}
+		}
+	}
+	return out
+}
+
+func (w *Walker) blockFacts0(fr *Frame, b *ssa.BasicBlock, depth int) []FactT {
 	var out []FactT
 	for _, fct := range dominatingFacts(b) {
 		out = append(out, FactT{Text: w.ts.Of(fct.Cond, fr).LooseString(), Holds: fct.Holds, Where: fct.If.Pos()})
@@ -702,9 +888,7 @@ func (w *Walker) impliedFacts(fr *Frame, cf CallFact, depth int) []FactT {
 				r := xb.Instrs[len(xb.Instrs)-1].(*ssa.Return)
 				if len(r.Results) == 1 {
 					if _, isConst := r.Results[0].(*ssa.Const); !isConst {
-						fs := expandCond(r.Results[0], cf.Outcome == "true", nil)
-						for _, f := range fs {
-							ft := FactT{Text: w.ts.Of(f.Cond, nfr).LooseString(), Holds: f.Holds}
+						for _, ft := range w.boolValueFacts(nfr, r.Results[0], cf.Outcome == "true", 0) {
 							m[ft.String()] = ft
 						}
 					}
@@ -730,6 +914,85 @@ func (w *Walker) impliedFacts(fr *Frame, cf CallFact, depth int) []FactT {
 		}
 	}
 	return out
+}
+
+// boolValueFacts: what is known when the boolean value v equals want. A phi
+// produced by `a && b` / `a || b` (one edge a constant, the other the right
+// operand evaluated under the left one) is followed: only the edges that can
+// yield `want` are feasible, and the facts common to them hold.
+func (w *Walker) boolValueFacts(fr *Frame, v ssa.Value, want bool, depth int) []FactT {
+	if depth > 6 {
+		return nil
+	}
+	switch x := v.(type) {
+	case *ssa.UnOp:
+		if x.Op == token.NOT {
+			return w.boolValueFacts(fr, x.X, !want, depth+1)
+		}
+	case *ssa.Const:
+		return nil
+	case *ssa.Phi:
+		var common map[string]FactT
+		feasible := 0
+		for i, e := range x.Edges {
+			if c, ok := e.(*ssa.Const); ok && c.Value != nil && c.Value.Kind() == constant.Bool {
+				if constant.BoolVal(c.Value) != want {
+					continue // this edge cannot produce `want`
+				}
+			}
+			feasible++
+			m := map[string]FactT{}
+			if i < len(x.Block().Preds) {
+				pred := x.Block().Preds[i]
+				for _, ft := range w.blockFacts(fr, pred, 4) {
+					m[ft.String()] = ft
+				}
+				// the edge pred -> phi block itself
+				if ifi, ok := pred.Instrs[len(pred.Instrs)-1].(*ssa.If); ok && len(pred.Succs) == 2 {
+					holds := pred.Succs[0] == x.Block()
+					for _, f := range expandCond(ifi.Cond, holds, ifi) {
+						ft := FactT{Text: w.ts.Of(f.Cond, fr).LooseString(), Holds: f.Holds}
+						m[ft.String()] = ft
+					}
+				}
+			}
+			if _, isConst := e.(*ssa.Const); !isConst {
+				for _, ft := range w.boolValueFacts(fr, e, want, depth+1) {
+					m[ft.String()] = ft
+				}
+			}
+			if common == nil {
+				common = m
+			} else {
+				for k := range common {
+					if _, ok := m[k]; !ok {
+						delete(common, k)
+					}
+				}
+			}
+		}
+		if feasible == 0 {
+			return nil
+		}
+		var out []FactT
+		for _, k := range sortedKeys(common) {
+			out = append(out, common[k])
+		}
+		return withEquivalents(out)
+	}
+	var out []FactT
+	for _, f := range expandCond(v, want, nil) {
+		out = append(out, FactT{Text: w.ts.Of(f.Cond, fr).LooseString(), Holds: f.Holds})
+	}
+	// a call to another boolean helper
+	if c, ok := v.(*ssa.Call); ok && depth < 4 {
+		outcome := "false"
+		if want {
+			outcome = "true"
+		}
+		out = append(out, w.impliedFacts(fr, CallFact{Call: c, Outcome: outcome}, depth+1)...)
+	}
+	return withEquivalents(out)
 }
 
 // hasFact: some fact matches all of the given substrings with the given polarity.
